@@ -163,6 +163,7 @@ type Exec struct {
 	lastNow      *nowRec
 	cstack       []*ssa.Function
 	pcSet        map[int]bool
+	fmtDepth     int
 }
 
 func (x *Exec) end(kind endKind, format string, args ...any) {
@@ -300,17 +301,18 @@ func (x *Exec) concretize(t *Term, what string) uint64 {
 	var vals []uint64
 	excl := x.st.Bool(true)
 	for {
-		r := x.check(excl, true)
+		if len(x.injective) > 0 {
+			x.flushInjectivity()
+		}
+		r, mv, err := x.solver.CheckModel(x.pc, excl, []*Term{t})
+		if err != nil {
+			x.end(endUnsupported, "solver error while enumerating values of %s: %v", what, err)
+		}
 		if r == Unknown {
 			x.end(endUnsupported, "solver returned unknown while enumerating values of %s", what)
 		}
 		if r == Unsat {
 			break
-		}
-		mv, err := x.solver.GetValues([]*Term{t})
-		x.solver.Pop()
-		if err != nil {
-			x.end(endUnsupported, "get-value: %v", err)
 		}
 		v := mv[0].lo
 		vals = append(vals, v)
@@ -519,14 +521,15 @@ func (e *Engine) RunPath(solver *Solver, entry *ssa.Function, prefix []Decision,
 
 // modelOf asks for a model of pc ∧ extra and returns values of the given terms.
 func (x *Exec) modelOf(extra *Term, ts []*Term) ([]ModelVal, bool) {
-	r := x.check(extra, true)
-	if r != Sat {
+	if len(x.injective) > 0 {
+		x.flushInjectivity()
+	}
+	r, mv, err := x.solver.CheckModel(x.pc, extra, ts)
+	if err != nil {
+		fmt.Fprintln(os.Stderr, "model query failed:", err)
 		return nil, false
 	}
-	mv, err := x.solver.GetValues(ts)
-	x.solver.Pop()
-	if err != nil {
-		fmt.Fprintln(os.Stderr, "get-value failed:", err)
+	if r != Sat {
 		return nil, false
 	}
 	return mv, true
